@@ -13,7 +13,7 @@ PROP = dict(
     required_theorems=["Octo.C03.groupBy_sql", "Octo.C03.one_row_per_key", "Octo.C03.C03_denote_sound", "Octo.C03.denoteGNested_sound",
                        "Octo.C03.resolve_first_fit", "Octo.C03.fixed_resolution_fits", "Octo.C03.raw_resolution_refuted",
                        "Octo.C03.table_matches_c14", "Octo.C03.table_modelled", "Octo.C03.trigger_same_final_result",
-                       "Octo.C03.C03_full", "Octo.C03.C03_partial"],
+                       "Octo.C03.C03_full", "Octo.C03.C03_engine_on_simple_plans"],
     needs_binary=True,
     gen=["aggtable"],
     nontrivial=_nontrivial,
